@@ -119,7 +119,7 @@ func posList(r *core.Rand, exact []int) string {
 func (prop) Gen(r *core.Rand, tier string) []core.Case {
 	n := 100
 	if tier == "thorough" {
-		n = 4000
+		n = 1500
 	}
 	var cs []core.Case
 	// regression: one connected + one known candidate, both matching; limits 1, 0, -1 (pre-fix: 2 peers)
